@@ -43,12 +43,15 @@ class _Bad(Exception):
     pass
 
 
-def _cexpr(text, env, consts):
-    """Translate a small C expression (identifiers of env, named integer constants, literals, * / +,
-    one comparison at most, parentheses) into a Coq nat/bool expression.  Unsigned C arithmetic and
-    Coq nat arithmetic agree on it as long as nothing overflows size_t (table sizes are far below);
-    there is no subtraction.  Returns (coq_text, is_bool)."""
-    toks = re.findall(r'gc->\w+|[A-Za-z_]\w*|\d+|>=|<=|==|[()*/+<>]|\S', text)
+def _cexpr(text, env, consts, helpers=None):
+    """Translate a small C expression into a Coq nat/bool expression: identifiers of env, named integer
+    constants, literals, * / +, comparisons, `c ? a : b`, max(a, b) / MAX(a, b), parentheses, and calls
+    of one-line helper functions of the same file (inlined ONE level: `helpers` maps a name to
+    (parameter, body); a helper body may declare `size_t x = e;` locals and must end in `return e;`, and
+    may not call helpers itself).  Unsigned C arithmetic and Coq nat arithmetic agree as long as nothing
+    overflows size_t (table sizes are far below); there is no subtraction."""
+    helpers = helpers or {}
+    toks = re.findall(r'gc->\w+|[A-Za-z_]\w*|\d+|>=|<=|==|\S', text)
     pos = [0]
 
     def peek():
@@ -57,14 +60,30 @@ def _cexpr(text, env, consts):
     def take():
         t = peek(); pos[0] += 1; return t
 
+    def expect(t):
+        if take() != t: raise _Bad(text)
+
     def atom():
         t = take()
         if t == '(':
-            e = cmp_(); 
-            if take() != ')': raise _Bad(text)
+            e = tern(); expect(')')
             return e
         if t is None: raise _Bad(text)
         if t.isdigit(): return t
+        if peek() == '(' and re.fullmatch(r'[A-Za-z_]\w*', t):
+            take()
+            args = [tern()]
+            while peek() == ',':
+                take(); args.append(tern())
+            expect(')')
+            if t in ('max', 'MAX') and len(args) == 2:
+                return '(Nat.max %s %s)' % tuple(args)
+            if t in ('min', 'MIN') and len(args) == 2:
+                return '(Nat.min %s %s)' % tuple(args)
+            if t in helpers and len(args) == 1:
+                par, body = helpers[t]
+                return _helper(body, {par: args[0]}, consts)
+            raise _Bad('unknown function %r in %r' % (t, text))
         if t in env: return env[t]
         if t in consts: return str(consts[t])
         raise _Bad('unknown token %r in %r' % (t, text))
@@ -88,9 +107,40 @@ def _cexpr(text, env, consts):
             return {'>=': '(%s <=? %s)' % (b, a), '<=': '(%s <=? %s)' % (a, b), '>': '(%s <? %s)' % (b, a),
                     '<': '(%s <? %s)' % (a, b), '==': '(%s =? %s)' % (a, b)}[o]
         return a
-    e = cmp_()
+
+    def tern():
+        c = cmp_()
+        if peek() == '?':
+            take(); x = tern(); expect(':'); y = tern()
+            return '(if %s then %s else %s)' % (c, x, y)
+        return c
+    e = tern()
     if pos[0] != len(toks): raise _Bad(text)
     return e
+
+
+def _helper(body, env, consts):
+    """body of `static size_t f(size_t x) { [size_t v = e;]* return e; }` as an expression in env"""
+    env = dict(env)
+    stmts = [t.strip() for t in body.strip()[1:-1].split(';') if t.strip()]
+    if not stmts or not stmts[-1].startswith('return'):
+        raise _Bad(body)
+    for st in stmts[:-1]:
+        m = re.fullmatch(r'(?:const\s+)?size_t\s+([A-Za-z_]\w*)\s*=\s*(.*)', st, re.S)
+        if not m:
+            raise _Bad(st)
+        env[m.group(1)] = _cexpr(m.group(2), env, consts)
+    return _cexpr(stmts[-1][len('return'):], env, consts)
+
+
+def _helpers(s, func_body):
+    """one-parameter static size_t helpers of the file: name -> (parameter, body)"""
+    h = {}
+    for m in re.finditer(r'static\s+size_t\s+([A-Za-z_]\w*)\s*\(\s*size_t\s+([A-Za-z_]\w*)\s*\)\s*\{', s):
+        b = func_body(s, re.escape(m.group(0)))
+        if b and b.count(';') <= 4 and 'for' not in b and 'while' not in b:
+            h[m.group(1)] = (m.group(2), b)
+    return h
 
 
 def _consts(s):
@@ -105,6 +155,7 @@ def _consts(s):
 def generate(repo, emit, src, func_body):
     s = src('src/GC.c')
     consts = _consts(s)
+    helpers = _helpers(s, func_body)
 
     # ---- tuning: when GC_Resize_Less gives slots back, and the collection threshold.  Both are emitted as
     # NOTATIONS, so the model text of coq/RegistryModel.v follows the source expression; the proofs use no
@@ -138,7 +189,7 @@ def generate(repo, emit, src, func_body):
     mit = None
     if len(rules) == 2 and re.sub(r'\s+', '', rules[0]) == re.sub(r'\s+', '', rules[1]):
         try:
-            mit = _cexpr(rules[0], {'gc->nitems': 'n'}, consts)
+            mit = _cexpr(rules[0], {'gc->nitems': 'n'}, consts, helpers)
         except _Bad:
             mit = None
     emit('gc_reg_mitems_rule', ('Notation gc_reg_mitems_rule n := %s%%nat (only parsing).   (* gc->mitems = %s *)'
